@@ -177,3 +177,326 @@ theorem inv_listAt {cur : Int} {list : List GSet} (hinv : Inv cur list) {i : Int
     omega
 
 end Whv.Explorer
+
+/-! ## The fine-grained (interleaving) model: global invariant of the repaired code -/
+namespace Whv.Explorer.Fine
+open Whv.Explorer
+
+@[simp] theorem upd_same (f : Nat → Thread) (k : Nat) (t : Thread) : upd f k t k = t := by simp [upd]
+theorem upd_other (f : Nat → Thread) {k j : Nat} (t : Thread) (h : j ≠ k) : upd f k t j = f j := by simp [upd, h]
+
+theorem fetchAll_contig (chain : Nat → Option (List Addr)) : ∀ (n i : Nat), Contig i (fetchAll chain n i) ∧ (fetchAll chain n i).length = n := by
+  intro n
+  induction n with
+  | zero => intro i; exact ⟨trivial, rfl⟩
+  | succ n ih => intro i; exact ⟨⟨rfl, (ih (i + 1)).1⟩, by simp [fetchAll, (ih (i + 1)).2]⟩
+
+theorem u32_le {x : Int} (h0 : 0 ≤ x) : (u32 x : Int) ≤ x := by
+  unfold u32
+  have h : (0 : Int) < (two32 : Int) := by decide
+  have h2 := Int.emod_nonneg x (Int.ne_of_gt h)
+  have h3 : x % (two32 : Int) ≤ x := by unfold two32; omega
+  omega
+
+/-- Program counters inside a section that holds `gs.lock` (in the repaired code). -/
+def Crit : Pc → Prop
+  | .locked _ | .mid _ _ | .unlocking | .reading _ => True
+  | _ => False
+
+/-- What is known about the two fields while the lock is held by a goroutine at `pc`: between the two
+writes of an update the invariant is the one the *second* write will establish. -/
+def HeldOk (cfg : Cfg) (cur : Int) (list : List GSet) : Pc → Prop
+  | .mid nc tail => if cfg.indexFirst then cur = nc ∧ Inv nc (list ++ tail) else cur < nc ∧ Inv nc list
+  | _ => Inv cur list
+
+/-- A fetched range is one `updateGuardianSets` may be fed with, and stays so while `current` grows. -/
+def SetsOk (cur : Int) (sets : List GSet) : Prop :=
+  ∃ a : Nat, Contig a sets ∧ (a : Int) ≤ cur + 1 ∧ ∀ x ∈ sets, x.index < two32
+
+def OpBound : Op → Prop
+  | .get i => i < two32
+  | .refresh b => b < two32
+
+/-- A finished lookup either missed (index beyond `current`) or returned the set with the index asked for. -/
+def GoodRes (i : Nat) : Res → Prop
+  | .ok x => x.index = i
+  | .miss => True
+  | .unit => True
+  | .panic => False
+
+structure J (cfg : Cfg) (s : Sys) : Prop where
+  owner : ∀ k, Crit (s.threads k).pc ↔ s.lock = some k
+  free : s.lock = none → Inv s.cur s.list
+  held : ∀ k, s.lock = some k → HeldOk cfg s.cur s.list (s.threads k).pc
+  setsF : ∀ k sets, (s.threads k).pc = .fetched sets → SetsOk s.cur sets
+  setsL : ∀ k sets, (s.threads k).pc = .locked sets → SetsOk s.cur sets
+  reading : ∀ k c, (s.threads k).pc = .reading c → ∃ i, (s.threads k).op = .get i ∧ (i : Int) ≤ s.cur
+  res : ∀ k i r, (s.threads k).op = .get i → (s.threads k).pc = .done r → GoodRes i r
+  bound : ∀ k, OpBound (s.threads k).op
+
+theorem setsOk_mono {cur cur' : Int} {sets : List GSet} (h : SetsOk cur sets) (hle : cur ≤ cur') : SetsOk cur' sets := by
+  obtain ⟨a, h1, h2, h3⟩ := h
+  exact ⟨a, h1, by omega, h3⟩
+
+/-- The lock owner is unique, so a goroutine other than the owner is outside every critical section. -/
+theorem not_crit_of_lock {cfg : Cfg} {s : Sys} (hJ : J cfg s) {k j : Nat} (hl : s.lock = some k) (hjk : j ≠ k) : ¬ Crit (s.threads j).pc := by
+  intro hc
+  have := (hJ.owner j).1 hc
+  rw [hl] at this
+  exact hjk (Option.some.inj this).symm
+
+theorem not_crit_of_free {cfg : Cfg} {s : Sys} (hJ : J cfg s) (hl : s.lock = none) (j : Nat) : ¬ Crit (s.threads j).pc := by
+  intro hc
+  have := (hJ.owner j).1 hc
+  rw [hl] at this
+  cases this
+
+/-- Generic re-establishment of `J` after goroutine `k` moved to `pc'` and possibly changed the shared fields:
+all the other goroutines are outside critical sections (the lock was free, or `k` owned it). -/
+theorem J_upd {cfg : Cfg} {s : Sys} (hJ : J cfg s) (k : Nat) (op' : Op) (pc' : Pc) (cur' : Int) (list' : List GSet) (lock' : Option Nat)
+    (hop' : (s.threads k).op = op')
+    (hmono : s.cur ≤ cur')
+    (hothers : ∀ j, j ≠ k → ¬ Crit (s.threads j).pc)
+    (hlock : lock' = none ∨ lock' = some k)
+    (hown : Crit pc' ↔ lock' = some k)
+    (hfree : lock' = none → Inv cur' list')
+    (hheld : lock' = some k → HeldOk cfg cur' list' pc')
+    (hsetsF : ∀ sets, pc' = .fetched sets → SetsOk cur' sets)
+    (hsetsL : ∀ sets, pc' = .locked sets → SetsOk cur' sets)
+    (hreading : ∀ c, pc' = .reading c → ∃ i, (s.threads k).op = .get i ∧ (i : Int) ≤ cur')
+    (hres : ∀ i r, (s.threads k).op = .get i → pc' = .done r → GoodRes i r) :
+    J cfg ⟨cur', list', lock', upd s.threads k ⟨op', pc'⟩⟩ := by
+  subst hop'
+  refine ⟨?_, hfree, ?_, ?_, ?_, ?_, ?_, ?_⟩
+  · intro j
+    by_cases hj : j = k
+    · subst hj; simpa using hown
+    · simp only [upd_other _ _ hj]
+      constructor
+      · intro hc; exact absurd hc (hothers j hj)
+      · intro hl
+        rcases hlock with h | h
+        · rw [h] at hl; cases hl
+        · rw [h] at hl; exact absurd (Option.some.inj hl).symm hj
+  · intro j hl
+    by_cases hj : j = k
+    · subst hj; simpa using hheld hl
+    · rcases hlock with h | h
+      · rw [h] at hl; cases hl
+      · rw [h] at hl; exact absurd (Option.some.inj hl).symm hj
+  · intro j sets hp
+    by_cases hj : j = k
+    · subst hj; exact hsetsF sets (by simpa using hp)
+    · simp only [upd_other _ _ hj] at hp
+      exact setsOk_mono (hJ.setsF j sets hp) hmono
+  · intro j sets hp
+    by_cases hj : j = k
+    · subst hj; exact hsetsL sets (by simpa using hp)
+    · simp only [upd_other _ _ hj] at hp
+      exact setsOk_mono (hJ.setsL j sets hp) hmono
+  · intro j c hp
+    by_cases hj : j = k
+    · subst hj; simpa using hreading c (by simpa using hp)
+    · simp only [upd_other _ _ hj] at hp
+      exact absurd (by rw [hp]; trivial) (hothers j hj)
+  · intro j i r ho hp
+    by_cases hj : j = k
+    · subst hj; exact hres i r (by simpa using ho) (by simpa using hp)
+    · simp only [upd_other _ _ hj] at ho hp
+      exact hJ.res j i r ho hp
+  · intro j
+    by_cases hj : j = k
+    · subst hj; simpa using hJ.bound j
+    · simp only [upd_other _ _ hj]; exact hJ.bound j
+
+theorem inv_getElem {cur : Int} {list : List GSet} (hinv : Inv cur list) {i : Nat} (h : (i : Int) ≤ cur) :
+    ∃ x, list[i]? = some x ∧ x.index = i := by
+  have hlen := hinv.len
+  have hi : i < list.length := by omega
+  exact ⟨list[i], List.getElem?_eq_getElem hi, by have := contig_get hinv.idx i hi; omega⟩
+
+/-- **Every step of the repaired code preserves the global invariant** (either write order). -/
+theorem step_preserves {cfg : Cfg} {chain : Nat → Option (List Addr)} {s s' : Sys} {k : Nat}
+    (hlr : cfg.lockedReads = true) (hJ : J cfg s) (hs : step cfg chain s k = some s') : J cfg s' := by
+  unfold step at hs
+  cases hpc : (s.threads k).pc with
+  | idle =>
+    simp only [hpc] at hs
+    cases hop : (s.threads k).op with
+    | refresh b =>
+      simp only [hop, hlr, Bool.true_and] at hs
+      cases hl : s.lock with
+      | some o => simp [hl] at hs
+      | none =>
+        simp only [hl, Option.isSome_none, Bool.false_eq_true, if_false, Option.some.injEq] at hs
+        subst hs
+        have hinv := hJ.free hl
+        have hb : b < two32 := by have := hJ.bound k; rw [hop] at this; exact this
+        refine J_upd hJ k (.refresh b) (.fetched (fetchAll chain (b + 1 - u32 (s.cur + 1)) (u32 (s.cur + 1)))) s.cur s.list none hop (Int.le_refl _) (fun j _ => not_crit_of_free hJ hl j) (Or.inl rfl)
+          ⟨(fun h => h.elim), (fun h => by cases h)⟩ (fun _ => hinv) (fun h => by cases h) ?_ (fun _ h => by cases h)
+          (fun _ h => by cases h) (fun _ _ _ h => by cases h)
+        intro sets hsets
+        cases hsets
+        have hlen := hinv.len
+        have hpos : 0 < s.list.length := List.length_pos_iff.mpr hinv.ne
+        obtain ⟨hc, hn⟩ := fetchAll_contig chain (b + 1 - u32 (s.cur + 1)) (u32 (s.cur + 1))
+        have hlo := u32_lt (s.cur + 1)
+        exact ⟨_, hc, u32_le (by omega), contig_bound hc (by rw [hn]; omega)⟩
+    | get i =>
+      simp only [hop, hlr, if_true] at hs
+      cases hl : s.lock with
+      | some o => simp [hl] at hs
+      | none =>
+        simp only [hl, Option.isSome_none, Bool.false_eq_true, if_false] at hs
+        have hinv := hJ.free hl
+        by_cases hle : (i : Int) ≤ s.cur
+        · simp only [hle, if_true, Option.some.injEq] at hs
+          subst hs
+          exact J_upd hJ k (.get i) (.reading s.cur) s.cur s.list (some k) hop (Int.le_refl _) (fun j _ => not_crit_of_free hJ hl j) (Or.inr rfl)
+            ⟨(fun _ => rfl), (fun _ => trivial)⟩ (fun h => by cases h) (fun _ => hinv) (fun _ h => by cases h) (fun _ h => by cases h)
+            (fun c _ => ⟨i, hop, hle⟩) (fun _ _ _ h => by cases h)
+        · simp only [hle, if_false, Option.some.injEq] at hs
+          subst hs
+          exact J_upd hJ k (.get i) (.done .miss) s.cur s.list none hop (Int.le_refl _) (fun j _ => not_crit_of_free hJ hl j) (Or.inl rfl)
+            ⟨(fun h => h.elim), (fun h => by cases h)⟩ (fun _ => hinv) (fun h => by cases h) (fun _ h => by cases h) (fun _ h => by cases h)
+            (fun _ h => by cases h) (fun _ r _ h => by cases h; trivial)
+  | fetched sets =>
+    simp only [hpc] at hs
+    have hso := hJ.setsF k sets hpc
+    by_cases hemp : sets.isEmpty = true
+    · simp only [hemp, if_true, Option.some.injEq] at hs
+      subst hs
+      have hnc : ¬ Crit (s.threads k).pc := by rw [hpc]; exact fun h => h
+      have hlk : s.lock ≠ some k := fun h => hnc ((hJ.owner k).2 h)
+      -- nothing shared changes; `k` leaves without the lock
+      refine ⟨?_, hJ.free, ?_, ?_, ?_, ?_, ?_, ?_⟩
+      · intro j
+        by_cases hj : j = k
+        · subst hj; simp only [upd_same]; exact ⟨(fun h => h.elim), (fun h => absurd h hlk)⟩
+        · simp only [upd_other _ _ hj]; exact hJ.owner j
+      · intro j hl
+        by_cases hj : j = k
+        · subst hj; exact absurd hl hlk
+        · simp only [upd_other _ _ hj]; exact hJ.held j hl
+      · intro j st hp
+        by_cases hj : j = k
+        · subst hj; simp at hp
+        · simp only [upd_other _ _ hj] at hp; exact hJ.setsF j st hp
+      · intro j st hp
+        by_cases hj : j = k
+        · subst hj; simp at hp
+        · simp only [upd_other _ _ hj] at hp; exact hJ.setsL j st hp
+      · intro j c hp
+        by_cases hj : j = k
+        · subst hj; simp at hp
+        · simp only [upd_other _ _ hj] at hp ⊢; exact hJ.reading j c hp
+      · intro j i r ho hp
+        by_cases hj : j = k
+        · subst hj
+          simp only [upd_same] at ho hp
+          cases hp; trivial
+        · simp only [upd_other _ _ hj] at ho hp; exact hJ.res j i r ho hp
+      · intro j
+        by_cases hj : j = k
+        · subst hj; simpa using hJ.bound j
+        · simp only [upd_other _ _ hj]; exact hJ.bound j
+    · simp only [hemp, Bool.false_eq_true, if_false] at hs
+      cases hl : s.lock with
+      | some o => simp [hl] at hs
+      | none =>
+        simp only [hl, Option.isSome_none, Bool.false_eq_true, if_false, Option.some.injEq] at hs
+        subst hs
+        have hinv := hJ.free hl
+        exact J_upd hJ k (s.threads k).op (.locked sets) s.cur s.list (some k) rfl (Int.le_refl _) (fun j _ => not_crit_of_free hJ hl j) (Or.inr rfl)
+          ⟨(fun _ => rfl), (fun _ => trivial)⟩ (fun h => by cases h) (fun _ => hinv) (fun _ h => by cases h)
+          (fun st h => by cases h; exact hso) (fun _ h => by cases h) (fun _ _ _ h => by cases h)
+  | locked sets =>
+    simp only [hpc] at hs
+    have hl : s.lock = some k := (hJ.owner k).1 (by rw [hpc]; trivial)
+    have hinv : Inv s.cur s.list := by have := hJ.held k hl; rw [hpc] at this; exact this
+    obtain ⟨a, hc, hlow, hb⟩ := hJ.setsL k sets hpc
+    have hoth : ∀ j, j ≠ k → ¬ Crit (s.threads j).pc := fun j hj => not_crit_of_lock hJ hl hj
+    cases hp : plan s.cur sets with
+    | none =>
+      simp only [hp, Option.some.injEq] at hs
+      subst hs
+      exact J_upd hJ k (s.threads k).op .unlocking s.cur s.list s.lock rfl (Int.le_refl _) hoth (Or.inr hl)
+        ⟨(fun _ => hl), (fun _ => trivial)⟩ (fun h => by rw [hl] at h; cases h) (fun _ => hinv) (fun _ h => by cases h)
+        (fun _ h => by cases h) (fun _ h => by cases h) (fun _ _ _ h => by cases h)
+    | some p =>
+      obtain ⟨nc, tail⟩ := p
+      obtain ⟨hinv', hlt⟩ := plan_inv hinv hc hlow hb hp
+      simp only [hp] at hs
+      by_cases hif : cfg.indexFirst = true
+      · simp only [hif, if_true, Option.some.injEq] at hs
+        subst hs
+        exact J_upd hJ k (s.threads k).op (.mid nc tail) nc s.list s.lock rfl (by omega) hoth (Or.inr hl)
+          ⟨(fun _ => hl), (fun _ => trivial)⟩ (fun h => by rw [hl] at h; cases h) (fun _ => by simp only [HeldOk, hif, if_true]; exact ⟨trivial, hinv'⟩)
+          (fun _ h => by cases h) (fun _ h => by cases h) (fun _ h => by cases h) (fun _ _ _ h => by cases h)
+      · simp only [hif, Bool.false_eq_true, if_false, Option.some.injEq] at hs
+        subst hs
+        exact J_upd hJ k (s.threads k).op (.mid nc tail) s.cur (s.list ++ tail) s.lock rfl (Int.le_refl _) hoth (Or.inr hl)
+          ⟨(fun _ => hl), (fun _ => trivial)⟩ (fun h => by rw [hl] at h; cases h)
+          (fun _ => by simp only [HeldOk, hif, Bool.false_eq_true, if_false]; exact ⟨hlt, hinv'⟩)
+          (fun _ h => by cases h) (fun _ h => by cases h) (fun _ h => by cases h) (fun _ _ _ h => by cases h)
+  | mid nc tail =>
+    simp only [hpc] at hs
+    have hl : s.lock = some k := (hJ.owner k).1 (by rw [hpc]; trivial)
+    have hh := hJ.held k hl
+    rw [hpc] at hh
+    have hoth : ∀ j, j ≠ k → ¬ Crit (s.threads j).pc := fun j hj => not_crit_of_lock hJ hl hj
+    by_cases hif : cfg.indexFirst = true
+    · simp only [hif, if_true, Option.some.injEq] at hs
+      subst hs
+      simp only [HeldOk, hif, if_true] at hh
+      exact J_upd hJ k (s.threads k).op .unlocking s.cur (s.list ++ tail) s.lock rfl (Int.le_refl _) hoth (Or.inr hl)
+        ⟨(fun _ => hl), (fun _ => trivial)⟩ (fun h => by rw [hl] at h; cases h) (fun _ => by rw [hh.1]; exact hh.2)
+        (fun _ h => by cases h) (fun _ h => by cases h) (fun _ h => by cases h) (fun _ _ _ h => by cases h)
+    · simp only [hif, Bool.false_eq_true, if_false, Option.some.injEq] at hs
+      subst hs
+      simp only [HeldOk, hif, Bool.false_eq_true, if_false] at hh
+      exact J_upd hJ k (s.threads k).op .unlocking nc s.list s.lock rfl (by omega) hoth (Or.inr hl)
+        ⟨(fun _ => hl), (fun _ => trivial)⟩ (fun h => by rw [hl] at h; cases h) (fun _ => hh.2)
+        (fun _ h => by cases h) (fun _ h => by cases h) (fun _ h => by cases h) (fun _ _ _ h => by cases h)
+  | unlocking =>
+    simp only [hpc, Option.some.injEq] at hs
+    subst hs
+    have hl : s.lock = some k := (hJ.owner k).1 (by rw [hpc]; trivial)
+    have hinv : Inv s.cur s.list := by have := hJ.held k hl; rw [hpc] at this; exact this
+    have hoth : ∀ j, j ≠ k → ¬ Crit (s.threads j).pc := fun j hj => not_crit_of_lock hJ hl hj
+    exact J_upd hJ k (s.threads k).op (.done .unit) s.cur s.list none rfl (Int.le_refl _) hoth (Or.inl rfl)
+      ⟨(fun h => h.elim), (fun h => by cases h)⟩ (fun _ => hinv) (fun h => by cases h) (fun _ h => by cases h) (fun _ h => by cases h)
+      (fun _ h => by cases h) (fun _ r _ h => by cases h; trivial)
+  | reading c =>
+    simp only [hpc] at hs
+    have hl : s.lock = some k := (hJ.owner k).1 (by rw [hpc]; trivial)
+    have hinv : Inv s.cur s.list := by have := hJ.held k hl; rw [hpc] at this; exact this
+    have hoth : ∀ j, j ≠ k → ¬ Crit (s.threads j).pc := fun j hj => not_crit_of_lock hJ hl hj
+    obtain ⟨i, hop, hle⟩ := hJ.reading k c hpc
+    simp only [hop, hlr, if_true, Option.some.injEq] at hs
+    subst hs
+    obtain ⟨x, hx, hxi⟩ := inv_getElem hinv hle
+    exact J_upd hJ k (.get i) (.done (match s.list[i]? with | some x => Res.ok x | none => Res.panic)) s.cur s.list none hop (Int.le_refl _) hoth (Or.inl rfl)
+      ⟨(fun h => h.elim), (fun h => by cases h)⟩ (fun _ => hinv) (fun h => by cases h) (fun _ h => by cases h) (fun _ h => by cases h)
+      (fun _ h => by cases h) (fun i' r ho h => by
+        rw [hop] at ho
+        cases ho
+        simp only [hx] at h
+        cases h
+        exact hxi)
+  | done r => simp [hpc] at hs
+
+/-- … hence every schedule does. -/
+theorem run_preserves {cfg : Cfg} (chain : Nat → Option (List Addr)) (hlr : cfg.lockedReads = true) :
+    ∀ (sched : List Nat) (s : Sys), J cfg s → J cfg (run cfg chain s sched) := by
+  intro sched
+  induction sched with
+  | nil => intro s h; exact h
+  | cons k ks ih =>
+    intro s h
+    unfold run
+    cases hs : step cfg chain s k with
+    | none => simpa using ih s h
+    | some s' => simpa using ih s' (step_preserves hlr h hs)
+
+end Whv.Explorer.Fine
